@@ -1,6 +1,7 @@
 """C10 — Levinson and the Toeplitz/Hermitian solvers solve their equations."""
 import numpy as np
 import vlib
+from props._loopir import loopir_tie, TRUSTED_LINE
 from vlib import cz, czl
 
 LEVEL_TEXT = ("Theorems in Coq over an abstract field with conjugation (any order, any lag sequence): the model of "
@@ -15,6 +16,11 @@ TRUSTED = ["Coq 8.16.1 kernel + vm_compute (no native_compute)",
            "hand-written model coq/Model/Levinson.v, tied to levinson.py/toeplitz.py by the correspondence run only",
            "numpy.linalg / scipy.linalg back ends of CHOLESKY are modelled as 'solve', not verified",
            "Python harness (snapshot, generators, float->dyadic conversion)"]
+TRUSTED = TRUSTED + [TRUSTED_LINE]
+LEVEL_TEXT = LEVEL_TEXT + (" Additionally the hand-written model is tied to the source text: a deep-embedded loop-IR program is regenerated from the Python source of LEVINSON, HERMTOEP, TOEPLITZ, levup, levdown on every run (fail-closed ast translator) and evaluated by the Coq interpreter at the exact instance against the model with zero tolerance (same outcome, every entry equal). For LEVINSON the tie is translation + theorem: coq/Proofs/LoopIRLevinson.v proves, for every input, that the interpreter run on "
+           "the generated program returns / raises exactly as the model (complex dtype: unconditionally; float dtype: real-valued r with positive zero lag, allow_singularity=False); "
+           "on every run the regenerated program is compared with the one the proof is about (reflexivity inside Coq) - if the source text changed the theorems are not claimed "
+           "and the exact evaluation decides.")
 UNPROVED = ["CHOLESKY (numpy/scipy back ends): residual search only",
             ]
 ASSUMPTIONS = ["exact arithmetic in the theorems; rounding error of the binary64 code is not bounded by any theorem",
@@ -186,6 +192,7 @@ def run(ctx):
     from spectrum.toeplitz import HERMTOEP, TOEPLITZ
     rng = ctx.rng
     ctx.check_theorems('Properties/C10.v')
+    loopir_tie(ctx, ['LEVINSON', 'HERMTOEP', 'TOEPLITZ', 'levup', 'levdown'])      # IR programs regenerated from the source vs the model: exact, zero tolerance
 
     # ---------------- correspondence: LEVINSON
     cases = []; meta = []
